@@ -1377,7 +1377,7 @@ def get_preos_params(Tb, M, rho):
         theta = fsolve(twu_eq4, np.log(M_0), args=(Tb[i],))
         
         # Convert theta to molecular weight
-        M_twu[i] = np.exp(theta)
+        M_twu[i] = np.exp(theta[0])
     
     # Apply Equations (11) - (13) in Twu (1983)
     delta_sg_t = np.exp(5. * (sg_twu - sg_adios)) - 1.
@@ -1664,7 +1664,7 @@ def Vc_tuning(mass_frac, composition, T_0, rho_0, w_0, rho_i, delta,
         """
         # Update the value of Vc in the user_data for the present oil 
         # component
-        user_data[component]['Vc'] = Vc
+        user_data[component]['Vc'] = np.atleast_1d(Vc)[0]
         
         # Create a dbm.FluidMixture object for this oil component with the
         # present user data.
